@@ -85,6 +85,9 @@ pub fn run(seed: u64, ntraces: usize) {
         // directed schedules (every 8th trace): cancel while the dispatch is in flight, then the call fails
         if t % 8 == 0 { queue = vec![("cmd", 0, 0, 0), ("jump", 0, 0, 0), ("exec", 0, 0, 0), ("cmd", 0, 1, 0), ("deliver_fail", 0, 0, 0), ("callback", 0, 0, 0), ("exec", 0, 0, 0)]; }
         if t % 8 == 1 { queue = vec![("cmd", 1, 2, 0), ("exec", 1, 1, 0), ("cmd", 1, 3, 0), ("deliver_fail", 0, 0, 0), ("callback", 0, 0, 0), ("exec", 1, 1, 0)]; }
+        // the operator role moves while an operator dispatch with a payment attached is in flight, then the call fails: the credit belongs to the dispatcher
+        if t % 8 == 2 { queue = vec![("cmd", 1, 2, 0), ("exec", 1, 1, 2), ("xfer_op", 0, 0, 0), ("deliver_fail", 0, 0, 0), ("callback", 0, 0, 0), ("refund", 0, 0, 0), ("refund", 0, 0, 0)]; }
+        if t % 8 == 3 { queue = vec![("cmd", 0, 0, 0), ("jump", 0, 0, 0), ("exec", 0, 0, 7), ("xfer_op", 0, 0, 0), ("deliver_fail", 0, 0, 0), ("callback", 0, 0, 0), ("refund", 0, 0, 0)]; }
         for _ in 0..nops {
             // time: sometimes jump to (just before / exactly) a scheduled eta
             let known: Vec<u64> = etas.iter().filter_map(|e| *e).filter(|e| *e >= now).collect();
@@ -96,7 +99,7 @@ pub fn run(seed: u64, ntraces: usize) {
             let has_undelivered = pending.iter().any(|p| p.result.is_none());
             let has_delivered = pending.iter().any(|p| p.result.is_some());
             let k = match forced { Some(("cmd", _, _, _)) => 100, Some(("exec", _, 0, _)) => 6, Some(("exec", _, _, _)) => 9,
-                        Some(("deliver_fail", _, _, _)) => 12, Some(("callback", _, _, _)) => 15, Some(("jump", _, _, _)) => 17, _ => 0 };
+                        Some(("deliver_fail", _, _, _)) => 12, Some(("callback", _, _, _)) => 15, Some(("jump", _, _, _)) => 17, Some(("refund", _, _, _)) => 17, Some(("xfer_op", _, _, _)) => 18, _ => 0 };
             let k = if forced.is_some() { k }
                     else if has_delivered && r.chance(1, 3) { 15 }
                     else if has_undelivered && r.chance(1, 3) { 12 }
@@ -150,7 +153,7 @@ pub fn run(seed: u64, ntraces: usize) {
                 let pi = if let Some(("exec", fpi, _, _)) = forced { fpi } else if !ready.is_empty() && r.chance(3, 4) { *r.pick(&ready) } else if !waiting.is_empty() && r.chance(1, 2) { *r.pick(&waiting) } else { r.below(props.len() as u64) as usize };
                 let p = props[pi].clone();
                 let caller = if operator_path { if forced.is_some() || r.chance(4, 5) { cur_op.clone() } else { anyone.clone() } } else { anyone.clone() };
-                let (egld, esdt): (u64, Vec<(Vec<u8>, u64, BigUint)>) = match r.below(8) {
+                let (egld, esdt): (u64, Vec<(Vec<u8>, u64, BigUint)>) = match if let Some(("exec", _, _, sh)) = forced { if sh > 0 { sh - 1 } else { r.below(8) } } else { r.below(8) } {
                     6 => (0, vec![(sft.clone(), 5, bn(7))]), 7 => (0, vec![(sft.clone(), 5, bn(2)), (sft.clone(), 6, bn(3)), (tok.clone(), 0, bn(1))]),
                     0 => (7, vec![]), 1 => (0, vec![(tok.clone(), 0, bn(11))]), 2 => (0, vec![(tok.clone(), 0, bn(5)), (tok2.clone(), 0, bn(6))]),
                     3 => (0, vec![(tok.clone(), 0, bn(3)), (tok.clone(), 0, bn(4))]), _ => (0, vec![]) };
@@ -207,13 +210,14 @@ pub fn run(seed: u64, ntraces: usize) {
             } else if k < 18 {
                 let mut caller = anyone.clone();
                 let (mut tk, mut nonce) = match r.below(7) { 0 => (b"EGLD".to_vec(), 0u64), 1 => (tok2.clone(), 0), 2 => (sft.clone(), 5), 3 => (sft.clone(), 6), 4 => (sft.clone(), 0), _ => (tok.clone(), 0) };
-                if !credited.is_empty() && r.chance(2, 3) { let (cu, ct, cn) = r.pick(&credited).clone(); caller = cu; tk = ct; nonce = cn; if r.chance(1, 6) { caller = anyone.clone(); } }
+                if !credited.is_empty() && (matches!(forced, Some(("refund", _, _, _))) || r.chance(2, 3)) { let (cu, ct, cn) = if forced.is_some() { credited.last().unwrap().clone() } else { r.pick(&credited).clone() }; caller = cu; tk = ct; nonce = cn; if forced.is_none() && r.chance(1, 6) { caller = anyone.clone(); } }
                 let mut arg = nested_buf(&tk); arg.extend_from_slice(&nonce.to_be_bytes());
                 step = w.call0(&caller, &gov, "withdrawRefundToken", vec![arg]);
                 opj = json!({"op": "withdrawRefund", "caller": hx(caller.as_bytes()), "token": hx(&tk), "nonce": nonce});
             } else if k < 19 {
                 let caller = if r.chance(1, 2) { cur_op.clone() } else { anyone.clone() };
-                let a = match r.below(4) { 0 => VMAddress::zero(), _ => r.pick(&users).clone() };
+                let a = if forced.is_some() { users[2].clone() } else { match r.below(4) { 0 => VMAddress::zero(), _ => r.pick(&users).clone() } };
+                let caller = if forced.is_some() { cur_op.clone() } else { caller };
                 step = w.call0(&caller, &gov, "transferOperatorship", vec![a.to_vec()]);
                 if step.res.result_status == 0 { cur_op = a.clone(); }
                 opj = json!({"op": "transferOp", "caller": hx(caller.as_bytes()), "a": hx(a.as_bytes())});
